@@ -491,6 +491,15 @@ func runC01(c *Ctx) {
 	r.TrustedBase = []string{"flat recording BytesChannel (flatch.go) for the reference encodings", "harness/xport header parser"}
 	r.Assumptions = []string{"package encodings themselves are C06's subject; here only packetisation of whatever the packages write"}
 	if c.Replay != nil {
+		var cc c12Case
+		if json.Unmarshal(c.Replay, &cc) == nil && cc.Channels > 0 && cc.Stream != "" {
+			// a case of the concurrent-senders leg (replay reproduces the
+			// workload, not necessarily the interleaving)
+			for i := 0; i < 20 && r.NumViolations() == 0; i++ {
+				c12Run(c, cc)
+			}
+			return
+		}
 		var cs c01Case
 		if err := json.Unmarshal(c.Replay, &cs); err != nil {
 			r.Inconclusive("bad replay: %v", err)
@@ -594,6 +603,30 @@ func runC01(c *Ctx) {
 			c01Run(c, cs)
 			r.Count("messages_of_256_or_more_full_packets", 4)
 		}
+	}
+	// concurrent senders: several channels of one connection flush
+	// multi-packet messages at the same time under large packet sizes; the
+	// bytes reaching the transport must still parse as consecutive packets
+	// (no packet of one channel inside a packet of another). Workload, peer
+	// and stream oracle are C12's storm (c12Run), seeded here with large
+	// sizes and few rounds.
+	nStorm := 4
+	if !quick {
+		nStorm = 40
+	}
+	for ci := 0; ci < nStorm; ci++ {
+		cs := c12Case{
+			Stream:     fmt.Sprintf("c01/concurrent/%d/%d", c.Batch, ci),
+			Channels:   []int{2, 3, 4, 8}[ci%4],
+			Rounds:     8,
+			TwoGor:     ci%2 == 1,
+			GoMaxProcs: []int{16, 4, 2, 16}[ci%4],
+			Yield:      ci % 3,
+			PacketSize: []int{4104, 16384, 65535, 8192}[ci%4],
+			Note:       "C01 concurrent-senders leg",
+		}
+		c12Run(c, cs)
+		r.Count("concurrent_sender_storms", 1)
 	}
 	runSockLegC01(c)
 }
